@@ -26,6 +26,44 @@ SPECS["C05"] = {
     "assumptions": [],
 }
 
+SPECS["C04"] = {
+    "level": "model_checking",
+    "groups": [dict(LIBGO, entries=[
+        {"name": "VerifC04_RoundTrip", "quick": {"params": [0, 1, 2], "bound": 2}, "thorough": {"params": [0, 1, 2, 3], "bound": 3, "procs": 4},
+         "expect_reach": ["end", "distinct-names", "collapsed-names"]},
+        {"name": "VerifC04_AddHeaders", "quick": {"params": [0, 1, 2], "bound": 1}, "thorough": {"params": [0, 1, 2], "bound": 2}},
+    ])],
+    "level_text": "Bounded symbolic model checking of the real Go codec (marshalHeaders/calculateHeaderSize via FProtocol.writeHeader, readHeader/unmarshalHeaders/readPairs, getHeadersFromFrame, unmarshalFrame, addHeadersToFrame): for every map of up to n headers with arbitrary byte content and every iteration order of the Go map (independently in the size and the write loop) the bytes equal the documented v0 layout as judged by an independent reference reader, both readers return the identical map, and the payload is untouched. Outside: the Python codec (not reachable from go/ssa), more headers / longer strings than the bound.",
+    "level_note": "Trusted: go/ssa, gose interpreter (path witnesses re-run natively), z3; the reference reader in the harness is the oracle for documentation/protocol.md. Stubs: fmt, logrus.",
+    "bounds": {"quick": "n <= 2 headers, names/values 0..2 bytes (AddHeaders: 0..1), payload 0..2 bytes, all iteration orders",
+               "thorough": "n <= 3 headers, names/values 0..3 bytes (AddHeaders: n <= 2, 0..2), payload 0..2 bytes"},
+    "assumptions": ["Python runtime codec and contrib/frame_parser.py are outside the claim"],
+}
+
+SPECS["C09"] = {
+    "level": "model_checking",
+    "groups": [dict(LIBGO, entries=[
+        {"name": "VerifC09_ContextRoundTrip", "quick": {"params": [0, 1], "bound": 2}, "thorough": {"params": [0, 1, 2], "bound": 2, "procs": 3}},
+    ])],
+    "level_text": "Bounded symbolic model checking of the real header path of a call (NewFContext, AddRequestHeader, SetTimeout/Timeout, FProtocol.WriteRequestHeader -> bytes -> ReadRequestHeader on the server, AddResponseHeader, WriteResponseHeader -> bytes -> ReadResponseHeader on the client): for all user header names/values (arbitrary bytes, non-reserved names), correlation ids and a set of timeouts the handler context sees exactly the user headers, cid and timeout, carries a fresh op id drawn from the local counter, the response carries the request op id and cid, every handler-set response header reaches the caller and the caller's request headers and own op id are untouched. Pub/sub uses the same ReadRequestHeader. Outside: transports (bytes moved verbatim), more/longer headers than the bound.",
+    "level_note": "Trusted: go/ssa, gose interpreter, z3. Stubs: fmt, logrus, strconv fast path for concrete digits, sync (engine mutexes).",
+    "bounds": {"quick": "<= 1 user request header, <= 2 response headers, names 1..2 bytes, values 0..2 bytes, cid 1..2 bytes, 6 timeout values", "thorough": "<= 2 user request headers"},
+    "assumptions": [],
+}
+
+SPECS["C12"] = {
+    "level": "model_checking",
+    "groups": [dict(LIBGO, entries=[
+        {"name": "VerifC12_BufferLimit", "quick": {"params": [1, 2, 3], "bound": 3}, "thorough": {"params": [1, 2, 3, 4], "bound": 5, "procs": 4}, "expect_reach": ["end", "accepted", "rejected"]},
+        {"name": "VerifC12_PrepareMessage", "quick": {"params": [0, 1, 2], "bound": 3}, "thorough": {"params": [0, 1, 2], "bound": 12}, "expect_reach": ["end", "fits", "too-large"]},
+        {"name": "VerifC12_SendReply", "quick": {"params": [0, 1, 2], "bound": 3}, "thorough": {"params": [0, 1, 2], "bound": 12}, "expect_reach": ["end", "fits", "too-large"]},
+    ])],
+    "level_text": "Bounded symbolic model checking of the real limit enforcement: (a) TMemoryOutputBuffer driven through thrift.TRichTransport (Write, WriteString, WriteByte) with an arbitrary limit 0..40 and up to 3 (4) writes of arbitrary length: a write is rejected iff it would exceed the limit, with REQUEST_TOO_LARGE, buffer reset, prefix exact; (b) FStandardClient.prepareMessage with the real TBinaryProtocol and a message whose large string is first/middle/last, limit around the exact framed size (computed independently): fails iff over, and the next in-limit message succeeds; (c) FBaseProcessorFunction.SendReply with an oversize result produces exactly one RESPONSE_TOO_LARGE exception which FStandardClient.processReply maps to transport error 101, in-limit replies arrive intact. Outside: the per-transport publish/request checks of NATS/STOMP/HTTP, other runtimes.",
+    "level_note": "Trusted: go/ssa, gose interpreter, z3; thrift's TBinaryProtocol and bytes.Buffer are executed from their real SSA. Stubs: fmt, logrus, context (engine model), sync.",
+    "bounds": {"quick": "limit 0..40 symbolic, <= 3 writes of 0..3 bytes; string sizes within 3 of the boundary", "thorough": "<= 4 writes of 0..5 bytes; string sizes within 12 of the boundary"},
+    "assumptions": ["(c): the limit admits the RESPONSE_TOO_LARGE reply itself (>= 160 bytes)"],
+}
+
 OVERLAYS = {}
 
 HOOK_COMMITS = []
